@@ -104,7 +104,7 @@ CLAIMED = {
  "C18": dict(engine="lean+java bench+facts", technique="Lean 4 proof (partition lengths of the reference encoder equal the counts; round trip of the reference encoder) + differential correspondence: generated Java Proxy/MinkObject executed (javac/java) against the reference encoder and the real counts",
    text="Partial: the Java generator's text is not modelled; what is proved is about the reference encoder the Java arrays are compared with. Lean 4: for every parameter list without small object-bearing structs, the reference encoding has exactly counts.bi input buffers, counts.bo output buffers, counts.oi input objects and counts.oo output objects (java_partition_lengths, via counts_eq_sections: the counts word equals the class histogram of the slot sections), and decoding the encoding returns the caller's values (C01.decode_encode). "
         "Tie: generated accepted methods over the constructs the Java backend handles are emitted by the real idlc --java, compiled with javac against a minimal stand-in of the Mink Java runtime API, and driven Proxy -> recording copying transport -> MinkObject -> scripted implementation; per call the lengths of bi/boSizes/oi/oo are compared with the counts of the real C-family pipeline, every bi/bo byte string and oi/oo token list with the Lean reference encoder, delivered inputs and returned outputs/status with the caller's. "
-        "Seven constructs inside the property's quantifier on which the generated Java fails (primitive arrays other than byte input, struct arrays, nested struct input, fixed-array struct members, a second out bundle) are known findings, each re-confirmed by a witness on every run.",
+        "Four defects found this way were repaired in /repo (primitive arrays in both directions, nested struct input, a second out bundle; their inputs now run as must-pass regression cases); three constructs inside the property's quantifier on which the generated Java still fails (struct arrays in either direction, fixed-array struct members) are known findings, each re-confirmed by a witness on every run.",
    note="Trusted: javac/java 17, the stand-in runtime API under bench/java-runtime (IMinkObject, JMinkObject, MinkProxy: only the members the generated code refers to), the bench's generated Java driver. " + TB),
  "C20": dict(engine="lean+concurrency bench", technique="Lean 4 proof (inductive invariant of a transition system over all interleavings) + trace validation of real multi-threaded histories against the model + generated-text scan",
    text="Partial. Lean 4, for EVERY schedule of the model (any number of threads, handles, clones, sends, scoped lends, calls and drops; induction over action lists): at most one method body runs at a time and a body is entered only when none runs (mutual_exclusion, enter_excludes); every body reads exactly the accumulated effect of all bodies completed before it (observes_completed); the implementation is dropped at most once, only after the count reached zero, never while a handle is alive, a call is pending, in its body or returning (not_dropped_while_in_use, alive_while_referenced), and exactly once when all handles are gone (dropped_after_last_release); the count never underflows (release_enabled). "
